@@ -709,7 +709,10 @@ func (c *Ctx) c13Commit(m *pop3Model) {
 				k, isC := eng.ConstInt(cc.Call.Args[len(cc.Call.Args)-1])
 				return isC && k == m.states["QUIT"]
 			}
-			if ret := (&eng.Search{Target: eng.IsReturn, Avoid: isQuit}).After(in); ret != nil {
+			// the processor may do the transition itself (update(): acknowledge, delete, enter
+			// QUIT): then every path through it passes the state write
+			procQuits := (&eng.Search{Target: eng.IsReturnOf(m.deleteProc), Avoid: isQuit}).FromEntry(m.deleteProc) == nil
+			if ret := (&eng.Search{Target: eng.IsReturn, Avoid: isQuit}).After(in); ret != nil && !procQuits {
 				probs = append(probs, "not followed by enterState(QUIT) on the path to "+p.InstrPos(ret)+": the session continues after committing")
 			}
 			sort.Strings(probs)
